@@ -135,3 +135,154 @@ def histories(n_eps=2, kmax=2, override=True):
 def hist_name(h):
     m = {"reset": "R", "step": "s", "step_override": "o", "run": "r", "stop": "."}
     return "".join(m[o[0]] for o in h)
+
+
+# ---- F-async: the finite family of threaded-runtime episodes (DESIGN 4.1) ---------------------------------
+def _conn_policies(allow_skip=True, force_skip=False):
+    """(blocking, jitter, skip) combinations of one connection"""
+    out = []
+    for blocking in (False, True):
+        for jitter in (("LATEST", "BUFFER") if not blocking else ("LATEST",)):
+            for skip in ((True,) if force_skip else ((False, True) if allow_skip else (False,))):
+                out.append((blocking, jitter, skip))
+    return out
+
+
+def fasync_bases():
+    """base configurations: topology x connection policies x windows x rates x scheduling x advance (nominal delays)"""
+    bases = []
+    rates2 = [(16, 16), (16, 8), (8, 16), (16, 4)]
+    # chain a -> b (supervisor b)
+    for (bl, ji, sk) in _conn_policies():
+        for w in (1, 2, 3):
+            for (ra, rb) in rates2:
+                for sched in ("FREQ", "PHASE"):
+                    for adv in ((False, True) if bl else (False,)):
+                        if w == 3 and sched == "PHASE" and (ra, rb) != (16, 8):
+                            continue
+                        s = spec({"a": node(ra, 1, sched), "b": node(rb, 2 if rb <= 8 else 1, sched, advance=adv)}, [edge("a", "b", bl, ji, sk, w, 1)], "b")
+                        bases.append((f"chain.{'B' if bl else 'N'}{ji[0]}{'s' if sk else ''}.w{w}.{ra}-{rb}.{sched[0]}{'.adv' if adv else ''}", s))
+    # 2-cycle a <-> b, back edge skipped; supervisor either node
+    for (bl, ji, sk) in _conn_policies(allow_skip=False):
+        for (bl2, ji2, _) in _conn_policies(force_skip=True):
+            for (ra, rb) in [(16, 16), (16, 8), (8, 16)]:
+                for sched in ("FREQ", "PHASE"):
+                    for sup in ("a", "b"):
+                        if bl and bl2 and ra != rb:
+                            continue  # both legs blocking with different rates: keep to equal rates
+                        s = spec(
+                            {"a": node(ra, 1, sched), "b": node(rb, 1, sched)},
+                            [edge("a", "b", bl, ji, False, 2, 1), edge("b", "a", bl2, ji2, True, 1, 1)],
+                            sup,
+                        )
+                        bases.append((f"cyc2.{'B' if bl else 'N'}{ji[0]}-{'B' if bl2 else 'N'}{ji2[0]}s.{ra}-{rb}.{sched[0]}.sup{sup}", s))
+    # fan-in (a, c) -> b
+    for (bl, ji, sk) in _conn_policies():
+        for (bl2, ji2, sk2) in [(False, "LATEST", False), (True, "LATEST", False), (False, "BUFFER", False)]:
+            for (ra, rc, rb) in [(16, 8, 8), (32, 8, 8), (8, 16, 16)]:
+                s = spec(
+                    {"a": node(ra, 1), "c": node(rc, 1), "b": node(rb, 1 if rb >= 16 else 2)},
+                    [edge("a", "b", bl, ji, sk, 2, 1), edge("c", "b", bl2, ji2, sk2, 1, 1)],
+                    "b",
+                )
+                bases.append((f"fan.{'B' if bl else 'N'}{ji[0]}{'s' if sk else ''}-{'B' if bl2 else 'N'}{ji2[0]}.{ra}-{rc}-{rb}", s))
+    # 3-cycle a -> b -> c ~> a
+    for (bl, ji, _) in _conn_policies(allow_skip=False):
+        for (bl2, ji2, _) in _conn_policies(allow_skip=False):
+            for (bl3, ji3, _) in [(False, "LATEST", True), (False, "BUFFER", True)]:
+                for sup in ("b", "c"):
+                    for sched in ("FREQ", "PHASE"):
+                        s = spec(
+                            {"a": node(16, 1, sched), "b": node(16, 1, sched), "c": node(8, 2, sched)},
+                            [edge("a", "b", bl, ji, False, 1, 1), edge("b", "c", bl2, ji2, False, 2, 1), edge("c", "a", bl3, ji3, True, 1, 1)],
+                            sup,
+                        )
+                        bases.append((f"cyc3.{'B' if bl else 'N'}{ji[0]}-{'B' if bl2 else 'N'}{ji2[0]}-N{ji3[0]}s.{sched[0]}.sup{sup}", s))
+    # chain with a blocking and a non-blocking leg a -> b -> c
+    for (bl, ji, sk) in [(True, "LATEST", False), (False, "LATEST", False), (False, "BUFFER", False)]:
+        for (bl2, ji2, sk2) in _conn_policies(allow_skip=False):
+            for adv in (False, True):
+                if adv and not bl2:
+                    continue
+                s = spec(
+                    {"a": node(16, 1), "b": node(8, 2), "c": node(16, 1, advance=adv)},
+                    [edge("a", "b", bl, ji, sk, 2, 1), edge("b", "c", bl2, ji2, sk2, 2, 1)],
+                    "c",
+                )
+                bases.append((f"chain3.{'B' if bl else 'N'}{ji[0]}-{'B' if bl2 else 'N'}{ji2[0]}{'.adv' if adv else ''}", s))
+    return bases
+
+
+def deviations(s, ticks=(0, 1, 2, 3)):
+    """all single deviations of the delay scripts of spec s: list of (label, ('node', name)|('edge', idx), position, value)"""
+    devs = []
+    for n, nd in s["nodes"].items():
+        period = 64 // nd["rate"]
+        nom = nd["comp"]["nominal"]
+        for p in ticks:
+            for v in sorted({0, period + period // 2, 3 * period, 5 * period} - {nom}):
+                devs.append((f"{n}@{p}={v}", ("node", n), p, v))
+    for i, e in enumerate(s["edges"]):
+        rperiod = 64 // s["nodes"][e["n"]]["rate"]
+        nom = e["comm"]["nominal"]
+        for p in ticks:
+            for v in sorted({0, rperiod - 1, rperiod, 2 * rperiod + 1, 3 * rperiod} - {nom}):
+                devs.append((f"{e['o']}>{e['n']}@{p}={v}", ("edge", i), p, v))
+    return devs
+
+
+def apply_deviation(s, dev):
+    s = copy.deepcopy(s)
+    _, (kind, key), p, v = dev
+    tgt = s["nodes"][key]["comp"] if kind == "node" else s["edges"][key]["comm"]
+    sc = list(tgt.get("script", []))
+    while len(sc) <= p:
+        sc.append(tgt["nominal"])
+    sc[p] = v
+    tgt["script"] = sc
+    return s
+
+
+def fasync_family(n_dev=1, tie_variants=True):
+    """yields (name, spec) for nominal + every single (n_dev=1) / pair (n_dev=2) of deviations of every base"""
+    for bname, b in fasync_bases():
+        yield (bname + "|nominal", b)
+        devs = deviations(b)
+        for dv in devs:
+            yield (bname + "|" + dv[0], apply_deviation(b, dv))
+        if n_dev >= 2:
+            for d1, d2 in itertools.combinations(devs, 2):
+                if d1[1] == d2[1] and d1[2] == d2[2]:
+                    continue
+                yield (bname + "|" + d1[0] + "," + d2[0], apply_deviation(apply_deviation(b, d1), d2))
+
+
+# ---- decimal family: generic (non-dyadic) rates and Normal delays; only record-level invariants apply ------------
+def nd(rate, mu, sigma, sched="FREQ", advance=False):
+    return {"rate": rate, "sched": sched, "advance": advance, "comp": {"dist": ["normal", mu, sigma], "nominal": 0}}
+
+
+def ed(o, n, blocking=False, jitter="LATEST", skip=False, window=1, mu=0.01, sigma=0.01):
+    return {"o": o, "n": n, "blocking": blocking, "jitter": jitter, "skip": skip, "window": window, "comm": {"dist": ["normal", mu, sigma], "nominal": 0}}
+
+
+def decimal_family():
+    out = []
+    rates = [(10, 7), (7, 10), (20, 4), (13, 13)]
+    for (ra, rb) in rates:
+        for (bl, ji, sk) in _conn_policies():
+            for w in (1, 3):
+                for sched in ("FREQ", "PHASE"):
+                    s = spec({"a": nd(ra, 0.3 / ra, 0.3 / ra, sched), "b": nd(rb, 0.3 / rb, 0.2 / rb, sched)}, [ed("a", "b", bl, ji, sk, w)], "b")
+                    out.append((f"dchain.{'B' if bl else 'N'}{ji[0]}{'s' if sk else ''}.w{w}.{ra}-{rb}.{sched[0]}", s))
+    for (ra, rb) in [(10, 7), (7, 10), (13, 13)]:
+        for (bl, ji, _) in _conn_policies(allow_skip=False):
+            for (bl2, ji2, _) in _conn_policies(force_skip=True):
+                if bl and bl2 and ra != rb:
+                    continue
+                s = spec({"a": nd(ra, 0.2 / ra, 0.2 / ra), "b": nd(rb, 0.2 / rb, 0.2 / rb)}, [ed("a", "b", bl, ji, False, 2), ed("b", "a", bl2, ji2, True, 1)], "b")
+                out.append((f"dcyc2.{'B' if bl else 'N'}{ji[0]}-{'B' if bl2 else 'N'}{ji2[0]}s.{ra}-{rb}", s))
+    for (bl, ji, sk) in _conn_policies():
+        s = spec({"a": nd(20, 0.01, 0.01), "c": nd(7, 0.03, 0.03), "b": nd(10, 0.02, 0.02)}, [ed("a", "b", bl, ji, sk, 2), ed("c", "b", False, "BUFFER", False, 1)], "b")
+        out.append((f"dfan.{'B' if bl else 'N'}{ji[0]}{'s' if sk else ''}", s))
+    return out
